@@ -286,3 +286,93 @@ func FuncS(name string, f *FuncExpr) *FuncStat {
 	f.Name = name
 	return &FuncStat{Path: []string{name}, Func: f}
 }
+
+// VisitExprs calls f on every expression of the block (pre-order, nested function bodies
+// included). f may modify the node it is given in place.
+func VisitExprs(b *Block, f func(Expr)) {
+	var ve func(e Expr)
+	var vb func(b *Block)
+	ves := func(es []Expr) {
+		for _, e := range es {
+			ve(e)
+		}
+	}
+	ve = func(e Expr) {
+		if e == nil {
+			return
+		}
+		f(e)
+		switch x := e.(type) {
+		case *FuncExpr:
+			vb(x.Body)
+		case *IndexExpr:
+			ve(x.Obj)
+			ve(x.Key)
+		case *CallExpr:
+			ve(x.Fn)
+			ves(x.Args)
+		case *MethodExpr:
+			ve(x.Obj)
+			ves(x.Args)
+		case *ParenExpr:
+			ve(x.E)
+		case *BinExpr:
+			ve(x.L)
+			ve(x.R)
+		case *UnExpr:
+			ve(x.E)
+		case *TableExpr:
+			for _, fl := range x.Fields {
+				ve(fl.Key)
+				ve(fl.Val)
+			}
+		}
+	}
+	vb = func(b *Block) {
+		if b == nil {
+			return
+		}
+		for _, st := range b.Stats {
+			switch s := st.(type) {
+			case *LocalStat:
+				ves(s.Exprs)
+			case *AssignStat:
+				ves(s.Targets)
+				ves(s.Exprs)
+			case *CallStat:
+				ve(s.Call)
+			case *DoStat:
+				vb(s.Body)
+			case *WhileStat:
+				ve(s.Cond)
+				vb(s.Body)
+			case *RepeatStat:
+				vb(s.Body)
+				ve(s.Cond)
+			case *IfStat:
+				ves(s.Conds)
+				for _, bl := range s.Blocks {
+					vb(bl)
+				}
+				vb(s.Else)
+			case *NumForStat:
+				ve(s.Start)
+				ve(s.Limit)
+				if s.Step != nil {
+					ve(s.Step)
+				}
+				vb(s.Body)
+			case *GenForStat:
+				ves(s.Exprs)
+				vb(s.Body)
+			case *FuncStat:
+				ve(s.Func)
+			case *LocalFuncStat:
+				ve(s.Func)
+			case *ReturnStat:
+				ves(s.Exprs)
+			}
+		}
+	}
+	vb(b)
+}
